@@ -131,7 +131,7 @@ private:
         World w = schemaWorld ? makeSchemaWorld(wr) : makeWorld(wr, go);
         if (fr.chance(1, 3)) { int n = 1 + fr.small(2); for (int i = 0; i < n; i++) { Resource& r = w.res[fr.below(w.res.size())]; mutateBytes(fr, r.core); if (r.padAt > r.core.size()) r.padAt = r.core.size(); r.expand(); } }
         ParseCfg cfg = ParseCfg::random(wr); cfg.lowWaterMark = -1; cfg.positions = false; if (cfg.scanner == 3) cfg.schema = true;
-        if (schemaWorld) { cfg.schema = true; cfg.ns = true; if (cfg.scanner == 1 || cfg.scanner == 2) cfg.scanner = wr.coin() ? 0 : 3; if (cfg.val == 0) cfg.val = 1 + (int)wr.below(2); }
+        if (schemaWorld) { cfg.schema = true; cfg.ns = true; if (cfg.scanner == 1 || cfg.scanner == 2) cfg.scanner = wr.coin() ? 0 : 3; if (cfg.val == 0 && !wr.chance(1, 4)) cfg.val = 1 + (int)wr.below(2); }      // (a quarter of the non-validating configurations stay: schema processing without validation)
         Json plan = Json::obj(); plan.set("mode", "C18"); if (schemaWorld) plan.set("schema_world", true); plan.set("cfg", cfg.toJson()); plan.set("resources", worldToJson(w));
         plan.set("resolver", 1 + (int)wr.below(2)); plan.set("nest", 1 + (int)wr.below(3)); plan.set("dom_heap_args", wr.chance(1, 3)); plan.set("second_cycle", wr.chance(1, 4));
         plan.set("max_k", tier == "quick" ? 60 : 400);
